@@ -1,0 +1,42 @@
+//go:build verif
+
+// Contracts for the read handlers of nsqadmin/http.go (C18), checked by nsqvc. Comment-only file.
+// Uses validS / isErr of zz_contracts_admin_verif.go.
+//
+// What is stated: whatever the upstream daemons answered (the ClusterInfo calls return arbitrary data
+// and arbitrary errors here), a read handler never crashes, and when it answers with an error this is
+// exactly an http_api.Err with code 502 and no data ("502 only when none answers"): a partial error
+// (clusterinfo.PartialErr) never produces an error answer.
+
+package nsqadmin
+
+//@ pred iupstream502(err error) := dyntype(err) == typetag("http_api.Err") && unbox(err, "http_api.Err").Code == 502
+
+//@ func (s *httpServer) nodesHandler(w http.ResponseWriter, req *http.Request, ps httprouter.Params) (interface{}, error)
+//@   props C18
+//@   requires validS(s) && req != nil
+//@   ensures[error-is-502] result1 != nil ==> iupstream502(result1) && result0 == nil
+//@   ensures[answer] result1 == nil ==> result0 != nil
+
+//@ func (s *httpServer) channelHandler(w http.ResponseWriter, req *http.Request, ps httprouter.Params) (interface{}, error)
+//@   props C18
+//@   requires validS(s) && req != nil
+//@   ensures[error-is-502] result1 != nil ==> iupstream502(result1) && result0 == nil
+//@   ensures[answer] result1 == nil ==> result0 != nil
+
+//@ func (s *httpServer) topicsHandler(w http.ResponseWriter, req *http.Request, ps httprouter.Params) (interface{}, error)
+//@   props C18
+//@   requires validS(s) && req != nil
+//@   ensures[error-is-502-or-400] result1 != nil ==> (iupstream502(result1) || (dyntype(result1) == typetag("http_api.Err") && unbox(result1, "http_api.Err").Code == 400)) && result0 == nil
+//@   ensures[answer] result1 == nil ==> result0 != nil
+
+//@ func (s *httpServer) topicHandler(w http.ResponseWriter, req *http.Request, ps httprouter.Params) (interface{}, error)
+//@   props C18
+//@   requires validS(s) && req != nil
+//@   ensures[error-is-502] result1 != nil ==> iupstream502(result1) && result0 == nil
+//@   ensures[answer] result1 == nil ==> result0 != nil
+// ASSUMED (call protocol, not proved: the workers of GetNSQDStats run in goroutines the engine skips):
+// the per-node objects decoded from the upstream answers are real, pairwise separate objects, and the
+// accumulator is only ever filled by Add - i.e. the preconditions of TopicStats.Add hold for every node.
+//@   loop 0
+//@     assume forall k int :: {topicStats[k]} 0 <= k && k < len(topicStats) ==> iaddPre(allNodesTopicStats, topicStats[k])
